@@ -490,7 +490,6 @@ func c20Handshake(rc *simrt.RunCtx) {
 	rc.Sample("lat=%v hsC=%v hsS=%v mult=%d drop=%d: client sent %d SYN -> %v, server sent %d SYN -> %v", lat, hsC, hsS, mult, drop, ctx, co.timeout, stx, so.timeout)
 }
 
-
 // c20ConnKarn: the "no sample from a retransmitted packet" rule as the
 // connection applies it, with send callbacks that take their time.
 func c20ConnKarn(rc *simrt.RunCtx) {
